@@ -680,6 +680,15 @@ def api_function(it: Any, fn: Any, args: list, kwargs: dict, f: Any) -> Any:
     if name == "ite":
         c, a, b = args
         return it.ite_value(ops.truth_term(p, c), a, b)
+    if name == "drawn_tick":
+        x = args[0]
+        if not is_bytes_like(x):
+            return -1
+        xb = as_sbytes(x)
+        for (tick, d) in p.ghost.setdefault("rng.drawn", []):
+            if d is xb or (isinstance(x, SByteArray) and d is x.v):
+                return tick
+        return -1
     if name == "fresh_in_call":
         x = args[0]
         exc = tuple(args[1]) if len(args) > 1 else tuple(kwargs.get("except_at", ()))
